@@ -8,15 +8,16 @@ import tempfile
 from engine import SPEC, gen_states, pool_map
 from readers import bgzf_blocks, load_pickle, read_text, run_cli, split_tag, write_text
 
-GRAPH = json.load(open(os.path.join(SPEC, "data", "sort_graph.json")))
+GRAPHS = {"a": json.load(open(os.path.join(SPEC, "data", "sort_graph.json"))), "b": json.load(open(os.path.join(SPEC, "data", "sort_graph_b.json")))}
+GRAPH = GRAPHS["a"]      # node ids and lengths are the same in both taggings
 POOL = json.load(open(os.path.join(SPEC, "data", "sort_pool.json")))
 
 OPTS = [["tp:A:P", "cg:Z:{L}="], ["NM:i:0", "cg:Z:{L}=", "zq:Z:x_y#1"], ["cg:Z:{L}="], ["dv:f:0.01", "id:Z:r:1"]]
 
 
-def gfa_text():
+def gfa_text(variant="a"):
     out = []
-    for n, g in GRAPH.items():
+    for n, g in GRAPHS[variant].items():
         out.append(f"S\t{n}\t*\tLN:i:{g['ln']}\tSN:Z:{g['sn']}\tSO:i:{g['so']}\tSR:i:{g['sr']}\tBO:i:{g['bo']}\tNO:i:{g['no']}")
     return "\n".join(out) + "\n"
 
@@ -62,11 +63,12 @@ def line_starts(path, bgzf):
 
 
 def run_sort_case(job):
-    cid, recs, mode, in_storage, out_bgzip, outind, pad, block = job
+    cid, recs, mode, in_storage, out_bgzip, outind, pad, block = job[:8]
+    variant = job[8] if len(job) > 8 else "a"
     d = tempfile.mkdtemp(prefix="sort_")
     try:
         gfa = os.path.join(d, "g.gfa")
-        write_text(gfa, gfa_text())
+        write_text(gfa, gfa_text(variant))
         lines = [gaf_line(k + 1, r, pad) for k, r in enumerate(recs)]
         gaf = os.path.join(d, "in.gaf" + (".gz" if in_storage == "bgzf" else ""))
         write_text(gaf, "\n".join(lines) + "\n", in_storage, block=block)
@@ -85,7 +87,7 @@ def run_sort_case(job):
                 f.write(r["stdout"])
         c = {"id": cid, "mode": mode, "file": recs, "status": r["status"] if r["status"] == "ok" else r["status"] + ":" + r["exc"][:50],
              "out": [], "gsi": [], "gsi_exists": os.path.exists(gsi_path), "reader_ok": True,
-             "cfg": {"in": in_storage, "bgzip": out_bgzip, "outind": outind, "pad": pad, "stdout": to_stdout}}
+             "cfg": {"in": in_storage, "bgzip": out_bgzip, "outind": outind, "pad": pad, "stdout": to_stdout, "graph": variant}}
         if os.path.exists(out) and r["status"] == "ok":
             starts, olines = line_starts(out, out_bgzip)
             where = {l: k + 1 for k, l in enumerate(lines)}
@@ -159,12 +161,17 @@ def run_mode(ctx, mode):
     for si, (pool, tag) in enumerate(((allref, "allref"), (noref, "noref"))):
         for bg in (False, True):
             jobs.append((f"s{tag}{int(bg)}", [rnd.choice(pool) for _ in range(6)], mode, "plain", bg, False, 0, 150))
+    # the same node ids under two different taggings, alternating within each worker process (state kept between
+    # calls - caches keyed by node id, mutable defaults - would show up as values of the other graph)
+    jobs = [j + (("a", "b")[k % 2],) for k, j in enumerate(jobs)]
     cases = pool_map(run_sort_case, jobs, chunk=8)
     ctx.evaluations += len(cases)
     for c in cases:
         if len(c["file"]) >= 2:
             ctx.nontrivial.add(json.dumps(c["file"], sort_keys=True) + str(c["cfg"]))
-    verdicts = ctx.validate("Check_Sort", cases, cfg="Check_Sort.cfg")
+    verdicts = {}
+    for variant, fname in (("a", "data/sort_graph.json"), ("b", "data/sort_graph_b.json")):
+        verdicts.update(ctx.validate("Check_Sort", [c for c in cases if c["cfg"]["graph"] == variant], cfg="Check_Sort.cfg", env={"SORT_GRAPH": fname}))
     for c in cases:
         v = verdicts[c["id"]]
         if v != "ok":
